@@ -1407,6 +1407,44 @@ def _process_program(ctx, em, spec, rng, deadline, sample=False, fold_sizes=None
                 f2 = insitu("simplify_folded", lambda: simplify(folded))
                 insitu("compile_folded", lambda: (f2 or folded).c_code_str())
                 break
+    # ---- (5) process history: procedures that share argument symbols (derived with add_assertion /
+    # rename / simplify) but have different preconditions are analysed in one process, the one
+    # with the *stronger* precondition first -- an answer carried over from it (anything remembered
+    # per symbol instead of per procedure) is too narrow for the original.  Judged by the same
+    # arg_range / constant_bound / check_expr_bound monitors as (4).
+    try:
+        ro.MON.enabled = False
+        try:
+            q = load_proc(src, ctx.scratch)  # fresh symbols, nothing analysed yet
+        finally:
+            ro.MON.enabled = True
+        from exo.stdlib.scheduling import rename
+
+        derived = None
+        for s_ in rng.sample(spec["sizes"], len(spec["sizes"])):
+            base = size_min(s_)
+            for k_ in rng.sample([1, 2, 3, 5], 4):
+                lo_ = base + k_ * (s_.get("mod") or 1)
+                if s_.get("eq") or (s_.get("le") and lo_ > s_["le"]):
+                    continue
+                try:
+                    derived = q.add_assertion(f"{s_['name']} >= {lo_}")
+                    break
+                except Exception:  # noqa
+                    ctx.stat("obs5_add_assertion_rejected")
+            if derived is not None:
+                break
+        if derived is not None:
+            ctx.stat("obs5_histories")
+            insitu("hist_compile_derived", lambda: derived.c_code_str())
+            insitu("hist_simplify_derived", lambda: simplify(derived))
+            insitu("hist_compile_original", lambda: q.c_code_str())
+            insitu("hist_simplify_original", lambda: simplify(q))
+            insitu("hist_compile_renamed", lambda: rename(q, "p_renamed").c_code_str())
+        else:
+            ctx.stat("obs5_no_strengthening")
+    except Exception as e:  # noqa
+        ctx.stat("obs5_exception:" + type(e).__name__)
     ro.MON.light = False
     ro.MON.origin = None
     return True
